@@ -41,6 +41,8 @@ struct uftrace_task_reader {
 	bool fork_handled;
 	bool fstack_set;
 	bool display_depth_set;
+	/* a longjmp() was seen: the next EXIT is the matching setjmp()'s */
+	bool longjmp_pending;
 	bool fstack_warned;
 	FILE *fp;
 	struct uftrace_symbol *func;
